@@ -853,7 +853,10 @@ impl TransactionBuilder {
     }
 
     pub fn add_reference_input(&mut self, reference_input: &TransactionInput) {
-        self.reference_inputs.insert(reference_input.clone(), 0);
+        // keep the script size if the same input was registered with one before
+        self.reference_inputs
+            .entry(reference_input.clone())
+            .or_insert(0);
     }
 
     pub fn add_script_reference_input(
